@@ -70,12 +70,14 @@ def main(argv):
     try:
         _setup_paths()
         mod = importlib.import_module(f"vf.props.{prop.lower()}")
-        if getattr(mod, "NEEDS_RUST", False):
+        needs_rust = getattr(mod, "NEEDS_RUST", True)  # default: rebuild the extensions from the working tree
+        if needs_rust:
             from . import rustext
 
             rustext.build_and_install()
         _check_dulwich_origin()
         ctx = core.Ctx(prop, tier, seed)
+        ctx.auto_twins = bool(needs_rust and getattr(mod, "AUTO_TWINS", True))
 
         # -- single replay ----------------------------------------------------
         if replay_file is not None:
